@@ -68,6 +68,10 @@ TARGETS = [
         ("Validator", "set_next_counterparty_commit_num", "C03", "C03_fn_validator_set_next_counterparty_commit_num", "filter"),
         ("Validator", "set_next_counterparty_revoke_num", "C03", "C03_fn_validator_set_next_counterparty_revoke_num", "filter"),
     ]),
+    dict(area="EnforceNew", rel="vls-core/src/policy/validator.rs", consts=[], externals={}, fns=[
+        # the state a channel starts from (all 13 fields; own area so that the 9-field structure of `Enforce` stays as it is)
+        ("EnforcementState", "new", "C01", "C01_fn_enforcement_state_new"),
+    ]),
     dict(area="SimpleState", rel="vls-core/src/policy/simple_validator.rs", consts=["vls-core/src/policy/mod.rs"],
          structs=["vls-core/src/policy/validator.rs"],
          # logging-only macros of the file (dropped like debug!; `scoped_debug_return!` yields a guard object that only
@@ -96,6 +100,11 @@ TARGETS = [
          externals={
              "Sha256::hash": {"params": ["Vec<u8>"], "ret": "Sha256Hash"},
              "Sha256Hash.to_byte_array": {"params": [], "ret": "Vec<u8>"},
+         },
+         # the `fngen` driver runs the generated store with the executable SHA-256 of Prim/Sha256.lean
+         driver_externals={
+             "ext_Sha256_hash": "(fun (l : List Nat) => VlsModel.Sha256.sha256 (l.map UInt8.ofNat))",
+             "ext_Sha256Hash_to_byte_array": "(fun (b : List UInt8) => b.map UInt8.toNat)",
          }, fns=[
         ("CounterpartyCommitmentSecrets", "new", "C03", "C03_fn_secrets_new"),
         ("CounterpartyCommitmentSecrets", "place_secret", "C03", "C03_fn_place_secret"),
@@ -108,12 +117,12 @@ TARGETS = [
          structs=["vls-core/src/policy/validator.rs"],
          # declared externals (trusted boundary, explicit parameters of the generated definitions): key derivation of the
          # LDK signer and secp parsing; `self.validator()` is only the receiver of `policy_err!` (its policy filter is the
-         # external `policy_filter_err`); a declared `Result` is read as `Option` (`Err` = `none`)
+         # external `policy_filter_err`); a `Result` declared with "as_option" is read as `Option` (`Err` = `none`)
          externals={
              "self.validator": {"params": [], "ret": "()", "drop": True},
              "self.get_per_commitment_point_unchecked": {"params": ["u64"], "ret": "PublicKey"},
-             "InMemorySigner.release_commitment_secret": {"params": ["u64"], "ret": "Result<Secret32, ()>"},
-             "SecretKey::from_slice": {"params": ["Secret32"], "ret": "Result<SecretKey, ()>"},
+             "InMemorySigner.release_commitment_secret": {"params": ["u64"], "ret": "Result<Secret32, ()>", "as_option": True},
+             "SecretKey::from_slice": {"params": ["Secret32"], "ret": "Result<SecretKey, ()>", "as_option": True},
          }, fns=[
         # `impl ChannelBase for ChannelStub`: a channel that is not set up never discloses a secret (C01)
         ("ChannelStub", "get_per_commitment_secret", "C01", "C01_fn_stub_get_per_commitment_secret"),
@@ -680,7 +689,7 @@ class Codec:
         raise RsError("no encoder for %r" % (t,))
 
 
-def dispatch_for(unit, area, fns, arms, defs, errall=(), filt=()):
+def dispatch_for(unit, area, fns, arms, defs, errall=(), filt=(), drv=None):
     """adds the `call_…` definitions of the translated functions of one unit"""
     cd = Codec(unit, area)
     calls = []
@@ -690,6 +699,10 @@ def dispatch_for(unit, area, fns, arms, defs, errall=(), filt=()):
         extargs = ""
         if f.exts and (f.impl, f.name) in errall and [n for n, _ in f.exts] == ["policy_filter_err"]:
             extargs = "(fun _ => true) "
+        elif f.exts and drv and all(n in drv for n, _ in f.exts):
+            # `driver_externals` of the target: every external of this function is instantiated with the given Lean term
+            # (e.g. the executable SHA-256 of Prim/Sha256.lean), so the differential group can run it against the real code
+            extargs = "".join(drv[n] + " " for n, _ in f.exts)
         elif f.exts and not const_filter:
             arms.append('  | "%s" :: _ => "nodriver"' % key)
             continue
@@ -763,9 +776,10 @@ def extract(repo):
         imports.append("import VlsModel.Gen.Fn%s" % tg["area"])
         filt = set((t[0] + "." if t[0] else "") + t[1] for t in tg["fns"] if len(t) > 4 and t[4] == "filter")
         dispatch_for(u, tg["area"], [u.fns[k] for k in u.order], arms, ddefs,
-                     errall={(t[0] or None, t[1]) for t in tg["fns"] if len(t) > 4 and t[4] == "errall"}, filt=filt)
+                     errall={(t[0] or None, t[1]) for t in tg["fns"] if len(t) > 4 and t[4] == "errall"}, filt=filt,
+                     drv=tg.get("driver_externals"))
     outputs["FnDispatch.lean"] = "\n".join(
-        ["import VlsModel.Drv.FnCodec"] + imports +
+        ["import VlsModel.Drv.FnCodec", "import VlsModel.Prim.Sha256"] + imports +
         ["/-! Dispatch table of the driver model `fngen`: `<Area>.<function> <args…>` -> outcome of the generated",
          "    definition (codec: Drv/FnCodec.lean).  Opaque type parameters are instantiated with `Nat`. -/",
          "namespace VlsModel.Gen.FnDispatch", "open VlsModel VlsModel.Gen VlsModel.Drv.FnCodec", ""] + ddefs +
